@@ -283,6 +283,13 @@ impl<P: Pid> ConnBox<P> {
         let id = P::from_u32(v).expect("id width");
         canon(on!(self, c => c.erase_stored_publish(id)))
     }
+    /// `regulate_for_store` on a v5 PUBLISH given as an abstract packet; Ok(view of the result) / Err
+    pub fn regulate_for_store(&self, ap: &AP) -> Result<AP, MqttError> {
+        let p = bridge::build::<P>(ap).ok().expect("publish for regulate_for_store");
+        let GenericPacket::V5_0Publish(p) = p else { panic!("regulate_for_store needs a v5 PUBLISH") };
+        let r = on!(self, c => c.regulate_for_store(p))?;
+        Ok(bridge::read::<P>(&GenericPacket::V5_0Publish(r)))
+    }
     pub fn version(&self) -> mqtt::Version {
         on!(self, c => c.get_protocol_version())
     }
